@@ -243,6 +243,118 @@ def threads_part(mod, spec, ctx, overrides=None):
                     'distinct_interleavings': len(st['fingerprints'])})
 
 
+def _edits(n):
+    """(label, edit(g) done on the real objects, the N-form the grid denotes afterwards) - edits a program makes between two
+    dumps: through the Grid and through the objects it handed in or got back (rows, metadata, values)."""
+    import base64
+    import hszinc
+    _, ver, meta, cols, rows = n
+    out = []
+    names = [c for c, _ in cols]
+    S = ('str', 'edited')
+    if rows:
+        r0 = dict(rows[0])
+        r0[names[0]] = S
+        nr0 = tuple((c, r0[c]) for c in names if c in r0)
+        out.append(('row-cell-edited-in-place', lambda g: g[0].__setitem__(names[0], 'edited'), ('grid', ver, meta, cols, (nr0,) + rows[1:])))
+        out.append(('row-deleted', lambda g: g.__delitem__(0), ('grid', ver, meta, cols, rows[1:])))
+    out.append(('row-appended', lambda g: g.append({names[0]: 'edited'}), ('grid', ver, meta, cols, rows + (((names[0], S),),))))
+    if meta:
+        out.append(('metadata-tag-deleted', lambda g: g.metadata.__delitem__(meta[0][0]), ('grid', ver, meta[1:], cols, rows)))
+    if 'zzAdded' not in dict(meta):
+        out.append(('metadata-tag-added', lambda g: g.metadata.__setitem__('zzAdded', 'edited'), ('grid', ver, meta + (('zzAdded', S),), cols, rows)))
+    if len(cols) > 1:
+        out.append(('columns-reversed', lambda g: g.column.reverse(), ('grid', ver, meta, cols[::-1], rows)))
+    if 'zzCm' not in dict(cols[0][1]):
+        out.append(('column-tag-added', lambda g: g.column[names[0]].__setitem__('zzCm', hszinc.MARKER),
+                    ('grid', ver, meta, ((names[0], cols[0][1] + (('zzCm', D.MARKER),)),) + cols[1:], rows)))
+    # values edited in place (first of each kind found in a row cell)
+    seen = set()
+    for ri, row in enumerate(rows):
+        for c, v in row:
+            k = v[0]
+            if k in seen or k not in ('xstr', 'list', 'dict', 'grid'):
+                continue
+            if k == 'xstr' and v[1] not in ('hex', 'b64'):
+                continue
+
+            def put(newv, ri=ri, c=c):
+                nrow = tuple((cc, newv if cc == c else vv) for cc, vv in rows[ri])
+                return ('grid', ver, meta, cols, rows[:ri] + (nrow,) + rows[ri + 1:])
+            if k == 'xstr':
+                if v[1] == 'hex':
+                    def ed(g, ri=ri, c=c):
+                        x = g[ri][c]
+                        if isinstance(x.data, bytearray):
+                            x.data.extend(b'\x01')
+                        else:
+                            x.data = bytes(x.data) + b'\x01'
+                    out.append(('xstr-payload-edited-in-place', ed, put(('xstr', 'hex', v[2] + '01'))))
+                else:
+                    raw = base64.b64decode(v[2]) + b'\x01'
+                    out.append(('xstr-payload-reassigned', lambda g, ri=ri, c=c, raw=raw: setattr(g[ri][c], 'data', raw),
+                                put(('xstr', 'b64', base64.b64encode(raw).decode('ascii')))))
+            elif k == 'list':
+                out.append(('list-cell-appended-to', lambda g, ri=ri, c=c: g[ri][c].append('edited'), put(('list', v[1] + (S,)))))
+            elif k == 'dict' and 'zzK' not in dict(v[1]):
+                out.append(('dict-cell-key-added', lambda g, ri=ri, c=c: g[ri][c].__setitem__('zzK', 'edited'), put(('dict', v[1] + (('zzK', S),)))))
+            elif k == 'grid' and v[3]:
+                c0 = v[3][0][0]
+                out.append(('nested-grid-row-appended', lambda g, ri=ri, c=c, c0=c0: g[ri][c].append({c0: 'edited'}),
+                            put(('grid', v[1], v[2], v[3], v[4] + (((c0, S),),)))))
+            else:
+                continue
+            seen.add(k)
+    return out
+
+
+def edits_between_dumps(ctx, mod, n):
+    """dump, edit, dump again: the second text is that of a freshly built grid with the edited content (nothing the
+    first dump left behind - on the grid, on a value, in the module - may stand in for the content)."""
+    import hszinc
+    from vf import hs as _hs
+    mode = {'zinc': hszinc.MODE_ZINC, 'json': hszinc.MODE_JSON}[mod.FMT]
+    if n[1] is None:
+        # a grid that detects its version never goes back to 2.0 when the value that made it 3.0 is edited away, a freshly
+        # built one would start at 2.0: give the version explicitly, the edits are not about it
+        n = ('grid', '3.0' if any(x[0] in ('na', 'xstr', 'list', 'dict', 'grid') for p, x in D.walk(n, 'top') if p != 'top') else '2.0') + n[2:]
+    for label, edit, n2 in _edits(n):
+        try:
+            want = hszinc.dump(_hs.to_grid(n2), mode=mode)
+            g = _hs.to_grid(n)
+            first = hszinc.dump(g, mode=mode)
+            repr(g)
+        except Exception:
+            continue
+        try:
+            edit(g)
+        except Exception:
+            ctx.count('edit refused by the grid (not judged)')
+            continue
+        ctx.case('edit-between-dumps', D.enc(n), label)
+        ctx.count('edits between two dumps')
+        ctx.cls('edit-between-dumps', label)
+        try:
+            got = hszinc.dump(g, mode=mode)
+            why = None if got == want else 'text %r, a freshly built grid with that content gives %r' % (_cut(got, want), _cut(want, got))
+        except Exception as e:   # noqa
+            why = 'raises %s: %s' % (type(e).__name__, str(e)[:120])
+        if why:
+            ctx.violation({'part': 'history', 'format': mod.FMT, 'position': 'document', 'kind': 'grid',
+                           'symptom': 'dump-after-edit:' + ('stale' if why.startswith('text') and got == first else why.split(' ')[0].rstrip(':')),
+                           'features': ['edit=' + label]},
+                          'grid dumped, then %s, then dumped again: %s' % (label, why), {'type': 'grid', 'n': D.enc(n), 'edits': True})
+            return
+
+
+def _cut(a, b):
+    """The part of a around the first difference with b."""
+    i = 0
+    while i < min(len(a), len(b)) and a[i] == b[i]:
+        i += 1
+    return a[max(0, i - 40):i + 60]
+
+
 def run_shard(mod, spec, ctx):
     part = spec['part']
     if part == 'threads':
@@ -391,6 +503,8 @@ def run_shard(mod, spec, ctx):
                                   {'type': 'grid', 'n': D.enc(n), 'build': 'reordered'})
             if not sym and gi % 4 == 1:
                 error_path(ctx, mod, n)
+            if not sym and gi % 4 == 3:
+                edits_between_dumps(ctx, mod, n)
             if not sym and gi % 5 == 2 and n[4]:
                 # the last row once more; then the same grid with its equal rows / equal containers being one and the
                 # same Python object: it is the same grid, so the same text and the same verdict
@@ -523,6 +637,8 @@ def replay(mod, case, ctx):
                            'features': ['k=%d' % len(ns), 'single=%s' % case['single']]}, '%s: %s' % (sym, detail), case)
     elif case.get('error_path'):
         error_path(ctx, mod, D.dec(case['n']))
+    elif case.get('edits'):
+        edits_between_dumps(ctx, mod, D.dec(case['n']))
     elif case.get('build'):
         from vf import hs as _hs
         n = D.dec(case['n'])
